@@ -371,6 +371,13 @@ class Interp:
     def st_Pass(self, st, env, mi):
         pass
 
+    def st_Global(self, st, env, mi):
+        # assignments to these names go to the module's namespace (kept for the life of this interpreter: module state)
+        env.setdefault('__global_names__', set()).update(st.names)
+
+    def st_Nonlocal(self, st, env, mi):
+        pass  # closures share the enclosing environment by reference here
+
     def st_Import(self, st, env, mi):
         pass
 
@@ -449,7 +456,11 @@ class Interp:
 
     def assign(self, t, val, env, mi):
         if isinstance(t, ast.Name):
-            env[t.id] = val
+            if t.id in env.get('__global_names__', ()):
+                self.__dict__.setdefault('_globals', {})[(mi.name, t.id)] = val
+                self.event('module-state-write', t, name=f'{mi.name}:{t.id}')
+            else:
+                env[t.id] = val
         elif isinstance(t, ast.Tuple | ast.List):
             if isinstance(val, Opaque):
                 for sub in t.elts:
@@ -822,7 +833,7 @@ class Interp:
         return e.value
 
     def ex_Name(self, e, env, mi):
-        if e.id in env:
+        if e.id in env and e.id not in env.get('__global_names__', ()):
             return env[e.id]
         return self.global_name(e.id, mi, e)
 
@@ -890,7 +901,12 @@ class Interp:
             meth = self.find_method(obj.cls, attr)
             if meth is not None:
                 decs = meth.decorators()
-                if 'property' in decs or any(d.endswith('cached_property') for d in decs):
+                if any(d.endswith('cached_property') for d in decs):
+                    # evaluated once; the value is stored on the instance (and travels with copies of the instance)
+                    v = self.call_function(meth, [], {}, bound=obj)
+                    obj.attrs[attr] = v
+                    return v
+                if 'property' in decs:
                     return self.call_function(meth, [], {}, bound=obj)
                 if 'staticmethod' in decs:
                     return FuncRef(meth)
